@@ -91,6 +91,7 @@ fn resolve_style_references(
                 None => {
                     let style = parse_as_reference_to_git_config(node, opt);
                     resolved_styles.extend(visited.iter().map(|node| (node.to_string(), style)));
+                    break;
                 }
             }
         }
